@@ -25,9 +25,10 @@ MkP(scn) ==
                                 THEN CHOOSE u \in 1..nt : scn.ttype[u] = 0 /\ scn.tnum[u] = scn.tnum[t]
                                 ELSE t],
       exact |-> \A o \in ops : o.c \in {"", "eq"},
-      rinst |-> [r \in 1..scn.nr |-> scn.rtype[r] \in {0, 1}]]
+      rinst |-> [r \in 1..scn.nr |-> scn.rtype[r] \in {0, 1}],
+      rown |-> [r \in 1..scn.nr |-> IF scn.rtype[r] = 3 THEN "C13" ELSE "C14"]]
 
-NoP == [prog |-> <<>>, nt |-> 0, nr |-> 0, nv |-> 1, na |-> 1, fam |-> "", id |-> "", base |-> <<>>, exact |-> FALSE, rinst |-> <<>>]
+NoP == [prog |-> <<>>, nt |-> 0, nr |-> 0, nv |-> 1, na |-> 1, fam |-> "", id |-> "", base |-> <<>>, exact |-> FALSE, rinst |-> <<>>, rown |-> <<>>]
 
 \* the scenarios of all runs in the file, computed once (constant level)
 ResetLines == SelectSeq([i \in 1..Len(Rec) |-> i], LAMBDA i : Rec[i].ev = "reset")
